@@ -40,7 +40,7 @@ def DsCall.isWrite : DsCall → Bool
 
 /-- writes that touch the study record or its trials (as opposed to operation bookkeeping) -/
 def DsCall.writesStudyData : DsCall → Bool
-  | .updateStudy | .createTrial | .updateTrial | .updateMetadata => true
+  | .updateStudy | .createTrial | .updateTrial | .deleteTrial | .updateMetadata => true
   | _ => false
 
 /-- the lock discipline this model assumes of `vizier_service.py` (locks sorted by name) -/
@@ -52,8 +52,8 @@ def assumedShape : List (Rpc × List (DsCall × List LockTable)) := [
   (.setStudyState, [(.loadStudy, [.study]), (.updateStudy, [.study])]),
   (.suggestTrials, [(.loadStudy, []), (.loadStudy, [.operation]), (.listSuggestionOperations, [.operation]),
     (.maxSuggestionOperationNumber, [.operation]), (.createSuggestionOperation, [.operation]),
-    (.listTrials, [.operation]), (.updateSuggestionOperation, [.operation]), (.updateTrial, [.operation]),
-    (.maxTrialId, [.operation]), (.updateMetadata, [.operation, .study]), (.maxTrialId, [.operation, .study]),
+    (.listTrials, [.operation]), (.updateSuggestionOperation, [.operation]), (.getTrial, [.operation, .study]),
+    (.updateTrial, [.operation, .study]), (.maxTrialId, [.operation]), (.updateMetadata, [.operation, .study]), (.maxTrialId, [.operation, .study]),
     (.createTrial, [.operation, .study])]),
   (.getOperation, [(.getSuggestionOperation, [])]),
   (.createTrial, [(.loadStudy, []), (.maxTrialId, [.study]), (.createTrial, [.study])]),
@@ -61,7 +61,7 @@ def assumedShape : List (Rpc × List (DsCall × List LockTable)) := [
   (.listTrials, [(.listTrials, [])]),
   (.addTrialMeasurement, [(.loadStudy, []), (.getTrial, [.study]), (.updateTrial, [.study])]),
   (.completeTrial, [(.loadStudy, []), (.getTrial, [.study]), (.updateTrial, [.study])]),
-  (.deleteTrial, [(.loadStudy, []), (.deleteTrial, [])]),
+  (.deleteTrial, [(.loadStudy, []), (.deleteTrial, [.study])]),
   (.checkTrialEarlyStoppingState, [(.loadStudy, []), (.getTrial, [.study]), (.getEarlyStoppingOperation, [.operation]),
     (.createEarlyStoppingOperation, [.operation]), (.updateEarlyStoppingOperation, [.operation]),
     (.loadStudy, [.operation]), (.maxTrialId, [.operation]), (.updateMetadata, [.operation, .study])]),
@@ -76,12 +76,12 @@ def callsOf (shape : List (Rpc × List (DsCall × List LockTable))) (r : Rpc) : 
 def criticalUnderStudyLock (shape : List (Rpc × List (DsCall × List LockTable))) (r : Rpc) : Bool :=
   (callsOf shape r).all fun c => c.2.contains .study || (c.1 == .loadStudy && c.2.isEmpty)
 
-/-- every write of study data (study record, trials, metadata), in ANY RPC, is under the study lock —
-    except SuggestTrials' hand-out of REQUESTED trials (`update_trial` under the operation lock),
-    which only touches trials no study-lock RPC can modify (REQUESTED trials are immutable to them) -/
+/-- every write of study data (study record, trials incl. their deletion, metadata), in ANY RPC, is
+    under the study lock.  (Until fix 2 of round g SuggestTrials handed out REQUESTED trials with
+    `update_trial` under the operation lock only and DeleteTrial took no lock: lost metadata update /
+    NotFoundError inside SuggestTrials — `c04_lost_update_counterexample`, `c04_pool_race_counterexample`.) -/
 def studyDataWritesLocked (shape : List (Rpc × List (DsCall × List LockTable))) : Bool :=
-  shape.all fun (r, calls) => calls.all fun c =>
-    !c.1.writesStudyData || c.2.contains .study || (r == .suggestTrials && c.1 == .updateTrial)
+  shape.all fun (_, calls) => calls.all fun c => !c.1.writesStudyData || c.2.contains .study
 
 /-- trial ids are allocated (`max_trial_id` … `create_trial`) under the study lock everywhere -/
 def idAllocationLocked (shape : List (Rpc × List (DsCall × List LockTable))) : Bool :=
@@ -174,5 +174,23 @@ def lostStep (s : LostState) : LostEv → LostState
   | .readA => { s with copyMd := s.md, copyOther := s.other }
   | .writeBackA => { s with md := s.copyMd, other := s.copyOther + 1 }
   | .writeB => { s with md := 7 }
+
+/-! ### the REQUESTED-pool race of round g: SuggestTrials handed out a trial from a `list_trials`
+snapshot (`update_trial` under the operation lock only) while DeleteTrial took no lock -/
+
+inductive PoolEv where
+  | snapshotA | writeBackA | deleteB
+  deriving DecidableEq, Repr
+
+structure PoolState where
+  present : Bool := true     -- the REQUESTED trial is stored
+  copied : Bool := false     -- thread A (SuggestTrials) holds a copy of it
+  assigned : Bool := false
+  failedA : Bool := false    -- `update_trial` raised NotFoundError inside SuggestTrials
+
+def poolStep (s : PoolState) : PoolEv → PoolState
+  | .snapshotA => { s with copied := s.present }
+  | .writeBackA => if !s.copied then s else if s.present then { s with assigned := true } else { s with failedA := true }
+  | .deleteB => { s with present := false }
 
 end VizierModel.Conc
